@@ -4,6 +4,7 @@ package main
 import (
 	"fmt"
 	"sort"
+	"strings"
 	"time"
 
 	"github.com/xelaj/mtproto/zverif/ref/rpcsrv"
@@ -34,6 +35,29 @@ func scenarios() []*sess.Scenario {
 			Setup: func(w *sess.World) {
 				w.Srv.Queue = append(w.Srv.Queue, &rpcsrv.Out{Body: update(903), Content: true, Label: "update903", Kind: -1},
 					&rpcsrv.Out{Body: srvAck(), Content: false, Label: "server-msgs_ack", Kind: -1})
+			}},
+		// the server repeats a content-related message under the same msg_id (as it does when it saw no
+		// acknowledgement): alone, and inside a container next to a new message
+		{Name: "A4-server-repeats-a-message", Salt: 5, Opt: all, Handler: true, Callers: [][]sess.Call{{obj(1)}},
+			Setup: func(w *sess.World) {
+				const again = int64(1600000000)<<32 | 0x00f00001
+				w.Srv.Queue = append(w.Srv.Queue, &rpcsrv.Out{Body: update(906), Content: true, Label: "update906", Kind: -1, ID: again},
+					&rpcsrv.Out{Body: update(906), Content: true, Label: "update906-again", Kind: -1, ID: again},
+					&rpcsrv.Out{Body: update(907), Content: true, Label: "update907", Kind: -1})
+			}},
+		// the server closes the connection after the first answer; the client reconnects within the same session
+		// (same session id), so msg_id and seq_no go on from where they were. Only the stream rules are judged
+		// here: acknowledgements written into the dying connection may be lost with it
+		{Name: "R1-stream-goes-on-after-reconnect", Salt: 5, Opt: all, Callers: [][]sess.Call{{obj(1), {Tag: 2, Kind: rpcsrv.KObj, MayFailOnConnLoss: true},
+			{Tag: 3, Kind: rpcsrv.KObj, After: func(x *sess.World) bool {
+				return len(x.Srv.Queue) == 0 && len(x.Net.Conns) >= 2 && x.Net.Conns[len(x.Net.Conns)-1].Announced() && x.ReaderIdle()
+			}}, obj(4)}},
+			Setup: func(w *sess.World) {
+				w.Srv.AfterResult = func(s *rpcsrv.Server, tag int32) {
+					if tag == 1 {
+						s.Queue = append(s.Queue, &rpcsrv.Out{Label: "close", Kind: -1, Lazy: func() rpcsrv.Event { return rpcsrv.Event{Kind: rpcsrv.EvClose, Label: "close"} }})
+					}
+				}
 			}},
 		// content-related messages whose processing fails (result for an unknown request) are still received
 		// messages: they, and what follows them in a container, must be acknowledged
@@ -80,16 +104,26 @@ func judge(run *vr.Run, sc *sess.Scenario, w *sess.World, choices []int) {
 			run.Violation("stream|bad-framing", sc.Name+": "+c.BadStream, rep)
 		}
 	}
+	if strings.HasPrefix(sc.Name, "R1-") {
+		return // stream rules only (above)
+	}
 	if len(w.Stalled()) == 0 {
 		// quiescent: every content-related server message must have been acknowledged, and nothing else
 		var missing, extra []int64
 		sent := map[int64]bool{}
+		times := map[int64]int{}
 		for _, id := range w.Srv.Content {
 			sent[id] = true
-			if !w.Srv.AckedIDs[id] {
+			times[id]++
+		}
+		for id, n := range times {
+			// a message the server sent again under the same msg_id (it saw no acknowledgement) is a received
+			// message again: it needs an acknowledgement each time
+			if w.Srv.AckCount[id] < n {
 				missing = append(missing, id)
 			}
 		}
+		sort.Slice(missing, func(i, j int) bool { return missing[i] < missing[j] })
 		// acknowledging a service message is not forbidden by the statement; naming an id the server never
 		// used at all is a wrong acknowledgement
 		for id := range w.Srv.AckedIDs {
